@@ -1,10 +1,14 @@
 (* C14 - Timing: start times, carousel gaps and pacing never early; edge cases are safe. *)
-From FluteV Require Import Model.SenderCtl Spec.SenderSpec Proofs.SenderProofs.
+From FluteV Require Import Model.SenderCtl Spec.SenderSpec Proofs.SenderProofs Proofs.C14Full.
 Open Scope N_scope.
 
-(* Full statement (kept visible; P_C14_start_time / P_C14_pacing / P_C14_carousel_gap are evaluated
-   on the implementation's packets against the model state on every run; the carousel clause is
-   known to fail in class D23 = carousel with max_transfer_count >= 2, see known_findings.txt). *)
+(* History-level statement, unconditional form.  It is FALSE of the model as it stands (see
+   C14_timing_full_refuted below): the three predicates look the object up by TOI in the state
+   before the read, and the clock handed to read() is whatever the caller passes.  The proved
+   theorem is C14_timing, under the premises shown necessary by the Examples.
+   (P_C14_start_time / P_C14_pacing / P_C14_carousel_gap are evaluated on the implementation's
+   packets against the model state on every run; the carousel clause is known to fail in class
+   D23 = carousel with max_transfer_count >= 2, see known_findings.txt.) *)
 Definition C14_timing_full : Prop :=
   forall fdt_npk fdt_ok divf ops full dur car sid queues,
     Forall (fun es => match fst es with
@@ -14,6 +18,62 @@ Definition C14_timing_full : Prop :=
                       | _ => True
                       end)
            (model_trace fdt_npk fdt_ok divf (init_st full dur car sid queues) ops).
+
+(* (0) THE HISTORY THEOREM.  Every packet of every history of the sender model respects the start
+   time, the pacing schedule and (outside D23) the carousel gap, provided
+     - distinct_tois ops  : the TOIs of the accepted adds are pairwise distinct,
+     - reads_monotone ops : the instants handed to successive reads never go back. *)
+Theorem C14_timing : forall fdt_npk fdt_ok divf ops full dur car sid queues,
+  distinct_tois ops -> reads_monotone ops ->
+  Forall (fun es => match fst es with
+                    | TRead now r _ _ =>
+                      P_C14_start_time (snd es) now r = true /\ P_C14_pacing (snd es) now r = true
+                      /\ (in_D23 (snd es) now r = false -> P_C14_carousel_gap (snd es) now r = true)
+                    | _ => True
+                    end)
+         (model_trace fdt_npk fdt_ok divf (init_st full dur car sid queues) ops).
+Proof. exact C14_timing_history. Qed.
+Print Assumptions C14_timing.
+
+(* --- the premises are needed --- *)
+Definition c14_div (d : Z) (n : N) : option Z := Some (d / Z.of_N n)%Z.
+Definition c14_check (queues : list (N * nat)) (ops : list op) : bool :=
+  forallb C14_clause_b
+    (model_trace (fun _ => 1%nat) (fun _ => true) c14_div
+                 (init_st true 3600000000000 (CDelay 1000000000) 1 queues) ops).
+
+(* a clock that goes back: the object (start time 10) is started at 10, its second packet leaves
+   at 5 < 10 (no pacing: nothing holds it back) *)
+Example C14_monotone_reads_needed_refuted :
+  let od := mk_odesc 1 0 3 3 1 CNone TNone false None [] in
+  c14_check [(0, 1%nat)] [OpAdd od (Some 10%Z) true; OpPublish 0; OpRead 10; OpRead 10; OpRead 5] = false.
+Proof. vm_compute; reflexivity. Qed.
+
+(* a TOI used again after remove() while the removed object still holds its slot (legal for the
+   implementation: only a TOI that is currently in the FDT is refused): the packet of the new object
+   is judged against the old one, found first under the same TOI *)
+Example C14_distinct_tois_needed_refuted :
+  let oa := mk_odesc 1 0 2 2 1 CNone (TDuration 1000) false None [] in
+  let ob := mk_odesc 1 0 1 1 1 CNone TNone false None [] in
+  c14_check [(0, 2%nat)] [OpAdd oa None true; OpPublish 0; OpRead 0; OpRead 0; OpRemove 1;
+                          OpAdd ob None true; OpPublish 1; OpRead 1; OpRead 1] = false.
+Proof. vm_compute; reflexivity. Qed.
+
+(* the same with both objects waiting (the implementation debug_asserts against this one) *)
+Example C14_distinct_tois_needed_refuted' :
+  let ob := mk_odesc 1 0 1 1 1 CNone TNone false None [] in
+  c14_check [(0, 1%nat)] [OpAdd ob (Some 100%Z) true; OpAdd ob None true; OpPublish 0; OpRead 0; OpRead 0] = false.
+Proof. vm_compute; reflexivity. Qed.
+
+Theorem C14_timing_full_refuted : ~ C14_timing_full.
+Proof.
+  intros H.
+  pose proof (C14_forallb _ (H (fun _ => 1%nat) (fun _ => true) c14_div
+     [OpAdd (mk_odesc 1 0 3 3 1 CNone TNone false None []) (Some 10%Z) true; OpPublish 0; OpRead 10; OpRead 10; OpRead 5]
+     true 3600000000000%Z (CDelay 1000000000) 1 [(0, 1%nat)])) as E.
+  vm_compute in E. discriminate.
+Qed.
+Print Assumptions C14_timing_full_refuted.
 
 (* (1) a transfer is started only when the configured start time has been reached *)
 Theorem C14_eligible_implies_start_time_reached : forall f prio full now,
